@@ -3,7 +3,9 @@ from . import gwfam, stopwin
 
 THEOREMS = ["MySensors.C06.alloc_known", "MySensors.C06.alloc_fresh", "MySensors.C06.alloc_reply",
             "MySensors.C06.no_alloc_no_node", "MySensors.C06.allocs_spec", "MySensors.C06.ids_never_twice",
-            "MySensors.C06.ids_never_twice_no_persistence", "MySensors.C06.logic_idRequest"]
+            "MySensors.C06.ids_never_twice_no_persistence", "MySensors.C06.logic_idRequest",
+            "MySensors.C06.mqtt_backlog_not_run", "MySensors.C06.mqtt_stop_window",
+            "MySensors.C06.mqtt_drain_after_stop_loses"]
 ASSUMPTIONS = [
     "stop() is the model's atomic `stop` step for lines handled before it; the shutdown window itself (lines the "
     "pump handles while stop() runs) is Model/StopOrder.lean: stop()'s own actions are disconnect then final "
@@ -39,8 +41,26 @@ def odd_senders(rng, version, hist):
     return hist
 
 
+def sleeping_requester(rng, version, hist):
+    """a node that is asleep asks for an id (the response waits for its wake-up); a periodic save while it waits,
+    the wake-up, a clean stop and restart, another wake-up: the response goes out once"""
+    if version in ("1.4", "1.5") or rng.random() > 0.3 or not any(op[0] in ("K", "X", "R") for op in hist):
+        return hist                  # (save ticks and restarts only occur in histories of persisting gateways)
+    node = rng.choice([1, 2, 7, 42])
+    wake = f"{node};255;3;0;{32 if version == '2.2' else 22};{rng.choice([0, 7, 500])}\n"
+    script = [("L", f"{node};255;0;0;17;{version}\n"), ("L", f"{node};1;0;0;6;t\n"), ("L", wake),
+              ("L", f"{node};255;3;0;3;\n"), ("K",), ("L", wake)]
+    if rng.random() < 0.5:
+        script.append(("K",))
+    script += [("X",), ("R",), ("L", wake), ("L", "255;255;3;0;3;\n")]
+    k = rng.randrange(len(hist) + 1)
+    while k < len(hist) and hist[k][0] == "R":      # not between a stop and its restart
+        k += 1
+    return hist[:k] + script + hist[k:]
+
+
 CFG = {"kinds": ["base", "base", "tcp", "mqtt", "base-nocb", "mqtt-nocb", "base-raisecb", "tcp-raisecb"], "quick": 260, "thorough": 6000, "persist": ["none", "json", "pickle"], "lengths": [10, 20, 35],
-       "bias": {"idreq": 8, "save": 2, "restart": 3, "pres_node": 2}, "malformed": 0.1, "post": [many_ids, odd_senders]}
+       "bias": {"idreq": 8, "save": 2, "restart": 3, "pres_node": 2}, "malformed": 0.1, "post": [many_ids, odd_senders, sleeping_requester]}
 
 
 def _stop_restart_idreq(version, hist):
@@ -168,14 +188,20 @@ def mqtt_backlog(fmt, before, backlog, workdir):
     return ids, (sorted(loaded) if err is None else ["load-raised"]), problem
 
 
-def mqtt_backlog_part(res, tier):
+def mqtt_backlog_part(res, tier, driver=None):
     import shutil
     import tempfile
     work = tempfile.mkdtemp(prefix="verif-c06-")
+    lines, impl = [], []
     try:
         for fmt in ("json", "pickle"):
             for before, backlog in ((0, 1), (2, 0), (2, 3), (1, 1), (0, 40) if tier != "quick" else (0, 5)):
                 ids, in_file, problem = mqtt_backlog(fmt, before, backlog, work)
+                # the model (C06.mqtt_stop_window): ids 1..before handed out, then stop(), the backlog not run
+                evs = [f"proc{i + 1}" for i in range(before)] + ["disconnect"] + \
+                      [f"proc{before + i + 1}" for i in range(backlog)] + ["saveStart", "saveEnd"]
+                lines.append("STOPRUNMQTT " + " ".join(evs))
+                impl.append(f"handed={','.join(map(str, ids)) or '-'} file={','.join(map(str, in_file)) or '-'}")
                 res.evaluations += 1
                 res.count("mqtt-backlog-at-stop")
                 lost = [i for i in ids if i not in in_file]
@@ -188,13 +214,24 @@ def mqtt_backlog_part(res, tier):
                                 f"stop() left (published {ids}, file {in_file})")})
     finally:
         shutil.rmtree(work, ignore_errors=True)
+    if driver is None:
+        return
+    try:
+        out = driver.run(lines)
+    except Exception as e:  # noqa: BLE001
+        res.corr_diffs.append({"name": "C06-mqtt-backlog-driver", "case": "driver", "model": str(e)[:300], "impl": ""})
+        return
+    for line, m, i in zip(lines, out, impl):
+        res.traces_validated += 1
+        if m.split(" connected=")[0] != i:
+            res.corr_diffs.append({"name": "C06-mqtt-backlog", "case": line, "model": m, "impl": i})
 
 
 def run(tier, seed, driver):
     res = gwfam.run_family("C06", tier, seed, driver, CFG, relevant)
     stopwin.part(res, "C06", driver, tier)
     unpaired_surrogate_part(res)
-    mqtt_backlog_part(res, tier)
+    mqtt_backlog_part(res, tier, driver)
     res.rule = ("histories biased to id requests, node presentations of ids 0..255 (incl. 250..255 to reach the "
                 "allocator bound), save ticks, stop/restart cycles, both formats; non-trivial = at least one id "
                 "response emitted; distinct by op script")
